@@ -41,7 +41,7 @@ def by_label_values(ls, table, full):
 
 def gen_system(tier, seed):
     r = rng(seed, "system")
-    ncases = 150 if tier == "quick" else 3000
+    ncases = 250 if tier == "quick" else 3000
     lines = []
     stats = {"cases": 0, "balanced": 0, "nan": 0, "no_stocks": 0, "lonely": 0, "perturbed": 0, "flows": 0, "selfloops": 0}
     for n in range(ncases):
